@@ -200,8 +200,37 @@ func (db *DB) Backup(dir string) error {
 			}
 		}
 	}
+	// 目标目录可能保存着之前的备份: 其中源目录已不存在的数据文件和 hint 文件 (例如已被 merge 回收的文件) 必须删除,
+	// 否则打开备份时这些旧文件中的记录会被重放, 已删除的 key 会复活, 已覆盖的 value 会恢复
+	if err := removeStaleBackupFiles(db.options.DirPath, dir); err != nil {
+		return err
+	}
 	// 将数据目录中的数据文件拷贝到指定目录中
 	return utils.CopyDir(db.options.DirPath, dir, []string{datafile.FileLockSuffix})
+}
+
+// 删除备份目录中源目录已不存在的数据文件和 hint 文件
+func removeStaleBackupFiles(src, dest string) error {
+	entries, err := os.ReadDir(dest)
+	if err != nil {
+		if os.IsNotExist(err) {
+			return nil
+		}
+		return err
+	}
+	for _, entry := range entries {
+		name := entry.Name()
+		if entry.IsDir() || !(strings.HasSuffix(name, string(datafile.DataFileSuffix)) ||
+			strings.HasSuffix(name, string(datafile.HintFileSuffix))) {
+			continue
+		}
+		if _, err := os.Stat(filepath.Join(src, name)); os.IsNotExist(err) {
+			if err := os.Remove(filepath.Join(dest, name)); err != nil {
+				return err
+			}
+		}
+	}
+	return nil
 }
 
 // Put 新增元素
